@@ -6,6 +6,7 @@ here say that this value is never returned.
 -/
 import DtailModel.Generated.Code
 import DtailModel.Lemmas.GoRT
+set_option autoImplicit false
 namespace Dtail.GenQuery
 open Dtail Dtail.Go Dtail.Gen.MaprQuery
 
